@@ -174,11 +174,12 @@ def gen_session(rng: random.Random, spec, *, p_invalid=0.0, p_query=0.0, p_reset
     kinds = []   # kind of every observer object created so far
     subs = []    # indices subscribed, in order (mirrors Dispatcher.subscribers)
 
-    def construct(k):
+    def construct(k, subscribe=True):
         if k not in (5, 6) and any(kinds[i] == k for i in subs):
             return  # singleton guard will reject it
         kinds.append(k)
-        subs.append(len(kinds) - 1)
+        if subscribe:
+            subs.append(len(kinds) - 1)
 
     for k in start_observers:
         events.append([3, k])
@@ -223,8 +224,17 @@ def gen_session(rng: random.Random, spec, *, p_invalid=0.0, p_query=0.0, p_reset
             c = rng.random()
             if c < 0.35:
                 k = rng.choice(obs_kinds)
-                events.append([3, k])
-                construct(k)
+                if rng.random() < 0.25:
+                    # constructed with subscribe=False; the caller subscribes it later (or never)
+                    events.append([3, k, 1])
+                    before = len(kinds)
+                    construct(k, subscribe=False)
+                    if len(kinds) > before and rng.random() < 0.7:
+                        events.append([5, len(kinds) - 1])
+                        subs.append(len(kinds) - 1)
+                else:
+                    events.append([3, k])
+                    construct(k)
             elif c < 0.35 + p_cog:
                 k = rng.choice(obs_kinds)
                 if kinds and rng.random() < 0.6:
